@@ -36,7 +36,8 @@ async def _run(product, thermostats, ops):
     await settle()
     await dev.dispatch("thermostats_available", thermostats)
     for op in ops:
-        cls = {0: R.EcomaxParametersResponse, 1: R.MixerParametersResponse, 2: R.ThermostatParametersResponse}[op["kind"]]
+        cls = {0: R.EcomaxParametersResponse, 1: R.MixerParametersResponse, 2: R.ThermostatParametersResponse,
+               3: R.SchedulesResponse}[op["kind"]]
         dev.handle_frame(cls(message=bytearray(op["payload"])))
         await settle()
     out = []
@@ -59,6 +60,19 @@ async def _run(product, thermostats, ops):
                 out.append({"tag": t, "sub": sub, "name": name, "index": p._index, "offset": getattr(p, "offset", 0),
                             "value": p.values.value, "payload": payload, "code": code})
     await describe(0, 0, dev)
+    # schedule switches and parameters: the set-schedule request each of them builds
+    from pyplumio.structures.schedules import SCHEDULES
+    for name, p in list(dev.data.items()):
+        if isinstance(p, Parameter) and (name.endswith("_schedule_switch") or name.endswith("_schedule_parameter")):
+            sched = name.rsplit("_schedule_", 1)[0]
+            try:
+                fr = await p.create_request()
+                payload, code = list(bytes(fr.message)), int(fr.frame_type)
+            except Exception as e:  # noqa: BLE001
+                payload, code = ["exception", type(e).__name__], -1
+            out.append({"tag": 5, "sub": SCHEDULES.index(sched) if sched in SCHEDULES else 999, "name": name, "index": p._index,
+                        "offset": 1 if name.endswith("_schedule_parameter") else 0, "value": p.values.value, "payload": payload,
+                        "code": code})
     for m, mx in sorted(dev.data.get("mixers", {}).items()):
         await describe(1, m, mx)
     for t, th in sorted(dev.data.get("thermostats", {}).items()):
@@ -104,8 +118,20 @@ class C07(Prop):
             nth = rng.choice([0, 1, 2, 2])
             ops = []
             for _ in range(rng.randrange(1, 6)):
-                k = rng.choice([0, 0, 1, 2])
-                if k == 0:
+                k = rng.choice([0, 0, 1, 2, 3])
+                if k == 3:
+                    # schedules response; names that are prefixes of one another (heating / heating_circulation, water_heater /
+                    # water_heater_2, intake / intake_summer) appear together often, in either order
+                    names = t["schedules"]
+                    pairs = [(a, b) for a in range(len(names)) for b in range(len(names)) if a != b and names[b].startswith(names[a] + "_")]
+                    idxs = list(rng.choice(pairs)) if pairs and rng.random() < 0.6 else []
+                    if rng.random() < 0.5:
+                        idxs.reverse()
+                    idxs += [i for i in rng.sample(range(len(names)), rng.randrange(0, 3)) if i not in idxs]
+                    ss = [[i, rng.choice([0, 1]), [[rng.randrange(255), 0, 255]],
+                           [[int(rng.random() < 0.5) for _ in range(48)] for _ in range(7)]] for i in idxs]
+                    ops.append({"kind": 3, "enc": [rng.randrange(256), rng.randrange(256), ss]})
+                elif k == 0:
                     start = rng.choice([0, 0, rng.randrange(0, len(etab)), max(0, len(etab) - rng.randrange(1, 6))])
                     count = rng.choice([rng.randrange(0, 20), min(255 - start, len(etab) - start + rng.randrange(0, 11))])
                     ops.append({"kind": 0, "enc": [rng.randrange(256), start, self._slots(rng, count)]})
@@ -127,7 +153,7 @@ class C07(Prop):
     def _render(self, c):
         if "_payloads" in c:
             return
-        cmds = {0: "enc_ecomax_params", 1: "enc_mixer_params", 2: "enc_thermostat_params"}
+        cmds = {0: "enc_ecomax_params", 1: "enc_mixer_params", 2: "enc_thermostat_params", 3: "enc_schedules"}
         for op in c["ops"]:
             op["payload"] = model.call(cmds[op["kind"]], op["enc"])
         c["_payloads"] = True
@@ -141,6 +167,10 @@ class C07(Prop):
                 3: t["ecomax_control_param"], 4: t["thermostat_profile_param"]}
         out = []
         for r in res:
+            if r["tag"] == 5:
+                # [5, schedule index, 0 switch / 1 parameter, ...]
+                out.append([5, r["sub"], r["offset"], r["index"], 0, 1, [r["payload"]], r["value"], r["code"]])
+                continue
             names = [d["name"] for d in tabs[r["tag"]]]
             pos = names.index(r["name"]) if r["name"] in names else 999
             size = tabs[r["tag"]][pos]["size"] if pos != 999 else 1
@@ -156,6 +186,8 @@ class C07(Prop):
                 if op["kind"] == 0:
                     d = model.call("decode_ecomax_params", bytes(op["payload"]))
                     ops.append([0, d[0]])
+                elif op["kind"] == 3:
+                    continue
                 elif op["kind"] == 1:
                     d = model.call("decode_mixer_params", bytes(op["payload"]))
                     for m, ps in d[0]:
@@ -196,12 +228,27 @@ class C07(Prop):
                     for i, sl in enumerate(block):
                         if sl and e[1] + i < lens[1]:
                             exp[(1, m, e[1] + i)] = sl[0][0]
-            else:
+            elif op["kind"] == 2:
                 for tt, block in enumerate(e[3]):
                     for i, sl in enumerate(block):
                         if sl and i < lens[2]:
                             exp[(2, tt, i)] = sl[0][0]
         return exp
+
+    def _sched_ok(self, c, b):
+        """schedule switches / parameters: a set-schedule request for THAT schedule, carrying its latest switch, parameter and week"""
+        latest = {}
+        for op in c["ops"]:
+            if op["kind"] == 3:
+                for i, sw, par, week in op["enc"][2]:
+                    latest[i] = (sw, par[0][0], week)
+        want = {}
+        for i, (sw, par, week) in latest.items():
+            bitmap = list(model.call("encode_bitmap", [[bool(x) for x in d] for d in week]))
+            for which in (0, 1):
+                want[(i, which)] = ([1, i, sw, par] + bitmap, 55)
+        got = {(row[1], row[2]): (row[6][0], row[8]) for row in b if row[0] == 5}
+        return got == want
 
     def spec_many(self, cases, behaviours, check_values=True):
         out = []
@@ -214,7 +261,11 @@ class C07(Prop):
             held = {(row[0], row[1], row[2]): row[7] for row in b if row[0] in (0, 1, 2)}
             if check_values and held != exp:
                 ok = False
+            if check_values and not self._sched_ok(c, b):
+                ok = False
             for tag, sub, pos, index, offset, size, payload, value, code in b:
+                if tag == 5:
+                    continue
                 payload = payload[0]
                 if payload and payload[0] == "exception":
                     ok = False
@@ -252,6 +303,8 @@ class C07(Prop):
         d8 = False
         for tag, sub, pos, index, offset, size, payload, value, code in ib:
             payload = payload[0]
+            if tag == 5:
+                continue
             if tag == 2 and sub >= 1:
                 per = self._creating_per(c, sub, pos)
                 exp = [pos + 1 + sub * per] + list(int(value).to_bytes(size, "little"))
@@ -266,7 +319,7 @@ class C07(Prop):
         # everything except the D8 rows must satisfy the spec
         rest = [row for row in ib if not (row[0] == 2 and row[1] >= 1)]
         full = {(row[0], row[1], row[2]): row[7] for row in ib if row[0] in (0, 1, 2)}
-        return full == self._latest(c) and self.spec_many([c], [rest], check_values=False)[0]
+        return full == self._latest(c) and self._sched_ok(c, ib) and self.spec_many([c], [rest], check_values=False)[0]
 
     def nontrivial_key(self, c, mb):
         for op in c["ops"]:
